@@ -17,10 +17,15 @@ static int t_op(int n) { return TVALID(n) ? g_top(n) : -1; }
 static int t_a(int n) { return TVALID(n) ? g_ta(n) : -2; }
 static int t_b(int n) { return TVALID(n) ? g_tb(n) : -2; }
 static _Bool is_leaf(int n, double x) { return P_LEAF(n, x); }
-/* V: the tabulated bias at the current bin when grids are used AND the variable is inside the grid; outside the grid the analytic sum over the hills
-   near its boundaries (range 2); without grids the analytic sum over the hills in memory (range 1) */
-static _Bool is_sum(int n, int range) { return t_op(n) == T_ADD && is_leaf(t_a(n), 0.0) && t_op(t_b(n)) == T_CALL + CID_HILLSUM && t_a(t_b(n)) == range; }
-static _Bool is_v(int n, _Bool use_grids) { return use_grids ? (g_inrange ? (t_op(n) == T_CALL + CID_GRIDVAL) : is_sum(n, 2)) : is_sum(n, 1); }
+/* V, the bias at the deposition point: the tabulated bias at the current bin when grids are used AND the variable is inside the grid (outside,
+   the analytic sum over the hills near the boundaries, range 2), PLUS in every case the analytic sum over the hills not tabulated yet (range 1:
+   all hills, without grids) */
+static _Bool is_hs(int n, int range) { return t_op(n) == T_CALL + CID_HILLSUM && t_a(n) == range; }
+static _Bool is_v(int n, _Bool use_grids) { int base = t_a(n);
+  if (!(t_op(n) == T_ADD && is_hs(t_b(n), 1))) return 0;
+  if (!use_grids) return is_leaf(base, 0.0);
+  if (g_inrange) return t_op(base) == T_CALL + CID_GRIDVAL;
+  return t_op(base) == T_ADD && is_leaf(t_a(base), 0.0) && is_hs(t_b(base), 2); }
 static _Bool is_kt(int n) { return t_op(n) == T_MUL && t_a(n) == g_node[1] && is_leaf(t_b(n), g_kb); }
 static _Bool is_arg(int n, _Bool use_grids) { int m = t_a(n); return t_op(n) == T_DIV && is_kt(t_b(n)) && t_op(m) == T_MUL && is_leaf(t_a(m), -1.0) && is_v(t_b(m), use_grids); }
 static _Bool is_scale(int n, _Bool wt, _Bool use_grids) { if (!wt) return is_leaf(n, 1.0);
@@ -31,6 +36,6 @@ __CPROVER_requires(g_tn == 0 && g_nhill == 0 && g_nsum == 0 && g_kb >= 0.0 && g_
 __CPROVER_assigns(__CPROVER_object_whole(g_node), __CPROVER_object_whole(e_l), TERM_FRAME, g_nhill, g_hill_w, g_hill_step, g_hill_c, g_hill_s, g_nsum, g_sum_range)
 __CPROVER_ensures(g_nhill == 1 && g_hill_step == g_step_abs && g_hill_c == 3 && g_hill_s == 4)
 __CPROVER_ensures(weight_ok(well_tempered, use_grids))
-__CPROVER_ensures(g_nsum == ((well_tempered && (!use_grids || !g_inrange)) ? 1 : 0))
+__CPROVER_ensures(g_nsum == (well_tempered ? ((use_grids && !g_inrange) ? 2 : 1) : 0))
 ;
 #endif
